@@ -115,6 +115,7 @@ let () =
               dead := true;
               print_endline "PANIC")
       | "SNAP" :: _ -> print_endline "SNAP"
+      | "SEED" :: _ -> print_endline "OK"
       | t -> (
           let o = !orc in
           orc := [];
